@@ -153,8 +153,8 @@ type ArrayVec3 = arrayvec::ArrayVec<BestAnnounceMessage, 3>;
 /// expires with the window), the newest messages of the other qualified records are consumed.
 fn c06_take_best_keeps_age_and_needs_two_on(shape: [usize; 2]) {
     let own = any_port_identity();
-    let interval = any_time_interval();
-    let list = verif_fm::list_of_shape(own, interval, shape);
+    let interval = TimeInterval(fixed::types::I48F16::from_bits(verif_fm::CONCRETE_INTERVAL_BITS));
+    let list = verif_fm::list_of_shape_ages(own, interval, shape, true);
     let n0 = verif_fm::n_masters(&list);
     let len_a = if n0 > 0 { verif_fm::n_messages_of(&list, 0) } else { 0 };
     let len_b = if n0 > 1 { verif_fm::n_messages_of(&list, 1) } else { 0 };
@@ -197,3 +197,31 @@ fn c06_take_best_keeps_age_and_needs_two__pair_and_single() { c06_take_best_keep
 #[kani::stub(<Duration as core::ops::Mul<u16>>::mul, verif_fm::stub_mul_window)]
 fn c06_take_best_keeps_age_and_needs_two__two_pairs() { c06_take_best_keeps_age_and_needs_two_on([2, 2]) }
 
+
+
+/// CONCRETE INSTANCE (the symbolic versions above exhaust CBMC's memory for records with two messages):
+/// one foreign master with two stored Announces (sequence ids 41, 42; ages 1000 and 2000 units), 1 s interval.
+/// Erbest is the newest one, tagged with the port identity, and it is put back with ITS age.
+#[kani::proof]
+#[kani::unwind(9)]
+#[kani::stub(<Duration as core::ops::Mul<u16>>::mul, verif_fm::stub_mul_window)]
+fn c06_take_best_concrete_pair_keeps_age() {
+    let own = PortIdentity { clock_identity: crate::config::ClockIdentity([1; 8]), port_number: 1 };
+    let sender = PortIdentity { clock_identity: crate::config::ClockIdentity([2; 8]), port_number: 1 };
+    let interval = TimeInterval(fixed::types::I48F16::from_bits(verif_fm::CONCRETE_INTERVAL_BITS));
+    let mut bmca = Bmca::new(crate::config::AcceptAnyMaster, interval, own);
+    let mut a = verif_fm::fixed_announce();
+    a.header.source_port_identity = sender;
+    a.header.sequence_id = 41;
+    bmca.foreign_master_list.register_announce_message(&a.header, &a, verif_fm::dur_from_bits(1000));
+    a.header.sequence_id = 42;
+    bmca.foreign_master_list.register_announce_message(&a.header, &a, verif_fm::dur_from_bits(2000));
+    assert!(verif_fm::n_messages_of(&bmca.foreign_master_list, 0) == 2);
+
+    let best = bmca.take_best_port_announce_message().unwrap();
+    assert!(best.identity == own && best.header.sequence_id == 42 && verif_fm::dur_bits(best.age) == 2000);
+    assert!(verif_fm::n_messages_of(&bmca.foreign_master_list, 0) == 2);
+    let (seq, age) = verif_fm::newest_of(&bmca.foreign_master_list, 0);
+    assert!(seq == 42 && age == 2000);
+    core::mem::forget(bmca);
+}
